@@ -9,8 +9,12 @@
   per-word parser (together: `create_render`, string level) and the iterator of the model, for ALL
   inputs in the stated domains.  What is not: the second-bracket re-expansion of `wcoll_expand`
   (`expand₂`) is tied to the spec by the correspondence only (real pdsh binary vs model vs spec).
-  Domain restrictions that are DEFECTS of the code are explicit hypotheses (`wordDom`, `Narrow`)
-  and each has a `decide`d witness theorem showing the statement fails without it.
+  The model is parametrised by `cfg : Cfg` (which recorded defects the source still carries; the
+  driver uses the variant PROBED from /repo on every run).  Every theorem holds for ALL variants;
+  a domain restriction that is a defect is an explicit hypothesis of the form
+  "the repairing switch is on ∨ the input avoids the defect" (`wordDom cfg`, `PrintsFull cfg`),
+  so for the repaired variant the statement is the full one (`iter_all_repaired`,
+  `create_render_repaired`), and for `Cfg.unchanged` a `decide`d witness shows it fails without it.
 -/
 import PdshVerif.Hostlist.Lemmas
 import PdshVerif.Hostlist.LemmasParse
@@ -73,25 +77,25 @@ theorem plain_name_unchanged (h : HL) (hg : h.Good) (name : Str) :
     `hostlist_create` over the rendered words succeeds and the list it builds denotes exactly
     `expand₁`: prefix+n+suffix for every n of every range in the order written, each n printed
     with the zero-padded width of the low bound as typed, repeats kept. -/
-theorem create_words (e : Spec.Expr) (hw : Spec.WF e = true) (hd : ∀ w ∈ e, wordDom w) :
-    ∃ st, createToks ⟨HL.new, 0⟩ (e.map Spec.renderWord) = .ok st ∧ st.hl.Good ∧
+theorem create_words (cfg : Cfg) (e : Spec.Expr) (hw : Spec.WF e = true) (hd : ∀ w ∈ e, wordDom cfg w) :
+    ∃ st, createToks cfg ⟨HL.new, 0⟩ (e.map Spec.renderWord) = .ok st ∧ st.hl.Good ∧
       st.hl.hosts = Spec.expand₁ e ∧ st.hl.count = (Spec.expand₁ e).length := by
   have hw' : ∀ w ∈ e, w.WF = true := by
     unfold Spec.WF at hw; simpa [List.all_eq_true] using hw
-  obtain ⟨st, h1, h2, h3⟩ := createToks_words e ⟨HL.new, 0⟩ hw' hd HL.new_good
+  obtain ⟨st, h1, h2, h3⟩ := createToks_words cfg e ⟨HL.new, 0⟩ hw' hd HL.new_good
   rw [HL.new_hosts, List.nil_append] at h3
   exact ⟨st, h1, h2, h3, by rw [HL.count, h2.2, h3]⟩
 
 /-- STRING LEVEL.  `hostlist_create` on the TEXT of a well-formed expression — words rendered as
     `pre[lo-hi,..]suffix`, separated by arbitrary non-empty runs of `,` blank tab, optional runs at
     both ends — returns a list that denotes exactly the mathematical expansion `expand₁`. -/
-theorem create_render (lead : Str) (items : List (Spec.Word × Str))
+theorem create_render (cfg : Cfg) (lead : Str) (items : List (Spec.Word × Str))
     (hl : lead.all Spec.sepChar = true) (hok : Spec.sepsOK items = true)
-    (hw : ∀ p ∈ items, p.1.WF = true) (hd : ∀ p ∈ items, wordDom p.1) :
-    ∃ h, create (Spec.render lead items) = .ok h ∧ h.Good ∧
+    (hw : ∀ p ∈ items, p.1.WF = true) (hd : ∀ p ∈ items, wordDom cfg p.1) :
+    ∃ h, create cfg (Spec.render lead items) = .ok h ∧ h.Good ∧
       h.hosts = Spec.expand₁ (items.map (·.1)) ∧
       h.count = (Spec.expand₁ (items.map (·.1))).length := by
-  obtain ⟨st, h1, h2, h3⟩ := createToks_words (items.map (·.1)) ⟨HL.new, 0⟩
+  obtain ⟨st, h1, h2, h3⟩ := createToks_words cfg (items.map (·.1)) ⟨HL.new, 0⟩
     (fun w hw' => by obtain ⟨p, hp, rfl⟩ := List.mem_map.mp hw'; exact hw p hp)
     (fun w hw' => by obtain ⟨p, hp, rfl⟩ := List.mem_map.mp hw'; exact hd p hp) HL.new_good
   rw [HL.new_hosts, List.nil_append] at h3
@@ -102,11 +106,32 @@ theorem create_render (lead : Str) (items : List (Spec.Word × Str))
     rw [List.map_map]; rfl
   rw [this, h1]
 
+/-- STRING LEVEL, REPAIRED VARIANT: with D18 and D23 repaired the only restriction left is that no
+    range reaches 2^64-1 (such a range is refused there, see C15.range_limit) -/
+theorem create_render_repaired (cfg : Cfg) (h18 : cfg.fixCurTok = true) (h23 : cfg.fixHostBuf = true)
+    (lead : Str) (items : List (Spec.Word × Str))
+    (hl : lead.all Spec.sepChar = true) (hok : Spec.sepsOK items = true)
+    (hw : ∀ p ∈ items, p.1.WF = true)
+    (hd : ∀ p ∈ items, ∀ pre g1 mid g2, p.1 = .br pre g1 mid g2 → ∀ r ∈ g1, r.hi < ULONG_MAX) :
+    ∃ h, create cfg (Spec.render lead items) = .ok h ∧ h.Good ∧
+      h.hosts = Spec.expand₁ (items.map (·.1)) := by
+  obtain ⟨h, e1, e2, e3, _⟩ := create_render cfg lead items hl hok hw (fun p hp => by
+    cases hpw : p.1 with
+    | plain n => simp [wordDom, h18]
+    | br pre g1 mid g2 => exact ⟨hd p hp pre g1 mid g2 hpw, fun _ _ => Or.inl h23⟩)
+  exact ⟨h, e1, e2, e3⟩
+
 /-- ITERATION.  A fresh iterator (`hostlist_next` until NULL — what `dsh()` walks) over a good
-    list whose printed numbers have at most 14 characters yields exactly the denoted hosts. -/
-theorem iter_all (h : HL) (hg : h.Good) (hn : ∀ r ∈ h.ranges.toList, r.Narrow) (n : Nat)
-    (hlen : h.hosts.length ≤ n) : iterAll h n = h.hosts := by
-  rw [iterAll_eq h hg.1 hn n, List.take_of_length_le hlen]
+    list yields exactly the denoted hosts, provided `hostlist_next` prints the numbers in full:
+    the repaired variant (D17), or numbers of at most 14 characters. -/
+theorem iter_all (cfg : Cfg) (h : HL) (hg : h.Good) (hn : ∀ r ∈ h.ranges.toList, r.PrintsFull cfg)
+    (n : Nat) (hlen : h.hosts.length ≤ n) : iterAll cfg h n = h.hosts := by
+  rw [iterAll_eq cfg h hg.1 hn n, List.take_of_length_le hlen]
+
+/-- ITERATION, REPAIRED VARIANT (full strength, no restriction on widths) -/
+theorem iter_all_repaired (cfg : Cfg) (h17 : cfg.fixIterSuffix = true) (h : HL) (hg : h.Good) (n : Nat)
+    (hlen : h.hosts.length ≤ n) : iterAll cfg h n = h.hosts :=
+  iter_all cfg h hg (fun _ _ => Or.inl h17) n hlen
 
 /-- SHIFT.  `hostlist_shift` until NULL (the loop of `wcoll_expand`) on a good list hands out
     exactly the denoted hosts, in order, and never meets the NULL range record (`ShiftFits`: the
@@ -117,7 +142,7 @@ theorem shift_all (h : HL) (hg : h.Good) (hf : ∀ r ∈ h.ranges.toList, r.Shif
   rw [shiftAll_eq h hg hf n, List.take_of_length_le hlen]
 
 /-
-  FULL STATEMENT of `iter_all` without `Narrow` is FALSE of the unchanged code (D17):
+  `iter_all` without `PrintsFull` is FALSE of the unchanged code (D17):
   `hostlist_next` keeps 14 characters of the number (`char suffix[16]; snprintf(suffix, 15, ..)`).
 -/
 /-- D17 witness: `a[000000000000001-2]` (width 15) iterates `a00000000000000` twice although the
@@ -126,18 +151,20 @@ theorem iter_all_false :
     (⟨#[HRange.mk' ['a'] 1 2 15], 2⟩ : HL).Good ∧
     (⟨#[HRange.mk' ['a'] 1 2 15], 2⟩ : HL).hosts =
       ["a000000000000001".toList, "a000000000000002".toList] ∧
-    iterAll ⟨#[HRange.mk' ['a'] 1 2 15], 2⟩ 5 = ["a00000000000000".toList, "a00000000000000".toList] := by
+    iterAll Cfg.unchanged ⟨#[HRange.mk' ['a'] 1 2 15], 2⟩ 5 =
+      ["a00000000000000".toList, "a00000000000000".toList] := by
   decide
 
-/-- D18: EVERY bracket-less word of ≥ 1023 bytes is read from an unterminated `cur_tok`
-    (`strncpy(cur_tok, tok, 1023)` writes no terminator) -/
-theorem plain_word_long_ub (st : PSt) (tok : Str) (h1 : '[' ∉ tok) (h2 : ']' ∉ tok)
-    (hlen : CURTOK - 1 ≤ tok.length) : pushTok st tok = .ub "cur_tok unterminated" := by
+/-- D18 (unrepaired variants): EVERY bracket-less word of ≥ 1023 bytes is read from an
+    unterminated `cur_tok` (`strncpy(cur_tok, tok, 1023)` writes no terminator) -/
+theorem plain_word_long_ub (cfg : Cfg) (h18 : cfg.fixCurTok = false) (st : PSt) (tok : Str)
+    (h1 : '[' ∉ tok) (h2 : ']' ∉ tok)
+    (hlen : CURTOK - 1 ≤ tok.length) : pushTok cfg st tok = .ub "cur_tok unterminated" := by
   unfold pushTok
   rw [cutAt_none h1]
   have : tok.contains ']' = false := by simpa using h2
   have hc : ¬ tok.length < CURTOK - 1 := by omega
-  simp only [this, Bool.false_eq_true, ↓reduceIte, curTok, hc]
+  simp only [this, Bool.false_eq_true, ↓reduceIte, curTok, hc, h18, Bool.false_or, decide_false]
 
 /-- D25 witness: a list built from `a[18446744073709551614-18446744073709551615]` (two hosts)
     loses its only range record at the first `hostlist_shift` while one host is still counted:
@@ -167,7 +194,7 @@ def exampleItems : List (Word × Spec.Str) :=
 example : String.ofList (render [] exampleItems) = "foo[9-11,007]-[0-1], 12 a3" := by decide
 example : sepsOK exampleItems = true := by decide
 example : WF exampleExpr = true := by decide
-example : ∀ w ∈ exampleExpr, wordDom w := by
+example : ∀ w ∈ exampleExpr, wordDom Cfg.unchanged w := by
   intro w hw
   simp only [exampleExpr, List.mem_cons, List.not_mem_nil, or_false] at hw
   rcases hw with rfl | rfl | rfl <;> decide
